@@ -113,14 +113,25 @@ func genC14(t *Tape) *shScenario {
 	n := 2 + t.Choose(5)
 	cc := t.Choose(4) // bit0: Close task, bit1: Connect task
 	val := uint16(1000 + t.Choose(1000))
+	many := t.Chance(1, 150)
+	if many {
+		// a crowd of goroutines shares the client: most of them have to wait for their turn at the same time
+		n = []int{33, 65, 66, 70, 129, 130}[t.Choose(6)] + t.Choose(3)
+	}
 	for c := 0; c < n; c++ {
 		m := 1 + t.Choose(5)
 		if n*m > 24 {
 			m = 24 / n
 		}
+		if many {
+			m = 1
+		}
 		var ops []shOp
 		for i := 0; i < m; i++ {
 			op := shOp{Write: t.Choose(2) == 0}
+			if many {
+				op.Write = t.Choose(4) == 0
+			}
 			if t.Chance(1, 8) {
 				op = shOp{SrvID: true}
 			}
@@ -702,6 +713,11 @@ func runC14(rc *RunCtx) {
 		}
 		if failed > 0 {
 			rc.Probe("history_with_failed_calls")
+		}
+		if len(sc.Callers) > 24 {
+			// a crowd whose calls all overlap: the search would not end in useful time, the transport monitors carry the check
+			rc.Probe("crowd_history_not_searched")
+			return
 		}
 		switch porcupine.CheckOperationsTimeout(regModel, ops, 20*time.Second) {
 		case porcupine.Illegal:
